@@ -64,8 +64,25 @@ func r34FlagTable(c *core.Ctx) {
 	}
 	info := m.Pkg.TypesInfo
 	// declared flags
+	// every function of package main (the action may delegate reading flags to helpers)
+	var mainBodies []ast.Node
+	var mainSSA []*ssa.Function
+	for _, f := range sortedFuncs(c.P) {
+		if f.Pkg == m.Pkg && f.Decl.Body != nil {
+			mainBodies = append(mainBodies, f.Decl.Body)
+			if f.SSA != nil {
+				mainSSA = append(mainSSA, f.SSA)
+				mainSSA = append(mainSSA, f.SSA.AnonFuncs...)
+			}
+		}
+	}
+	inspectMain := func(fn func(ast.Node) bool) {
+		for _, b := range mainBodies {
+			ast.Inspect(b, fn)
+		}
+	}
 	declared := map[string]string{} // name -> kind
-	ast.Inspect(m.Decl.Body, func(n ast.Node) bool {
+	inspectMain(func(n ast.Node) bool {
 		cl, ok := n.(*ast.CompositeLit)
 		if !ok {
 			return true
@@ -99,23 +116,6 @@ func r34FlagTable(c *core.Ctx) {
 		call *ast.CallExpr
 	}
 	var reads []readSite
-	// every function of package main (the action may delegate reading flags to helpers)
-	var mainBodies []ast.Node
-	var mainSSA []*ssa.Function
-	for _, f := range sortedFuncs(c.P) {
-		if f.Pkg == m.Pkg && f.Decl.Body != nil {
-			mainBodies = append(mainBodies, f.Decl.Body)
-			if f.SSA != nil {
-				mainSSA = append(mainSSA, f.SSA)
-				mainSSA = append(mainSSA, f.SSA.AnonFuncs...)
-			}
-		}
-	}
-	inspectMain := func(fn func(ast.Node) bool) {
-		for _, b := range mainBodies {
-			ast.Inspect(b, fn)
-		}
-	}
 	inspectMain(func(n ast.Node) bool {
 		call, ok := n.(*ast.CallExpr)
 		if !ok || len(call.Args) != 1 {
